@@ -345,3 +345,207 @@ def _replay_source(text, variant):
             'ref = B.ref_outcome(dict(variant, **{"main.case": text}), "main.case")\n'
             'print("real:", real)\nprint("ref: ", ref)\nsys.exit(1 if real != ref else 0)\n'
             % (os.path.dirname(os.path.dirname(os.path.abspath(__file__))), variant, text))
+
+
+# ------------------------------------------------------------------------------ states of a ParseSource
+
+def _state(ps):
+    return (ps._column_index, ps.source_string, ps._current_line_number, ps._current_line_text)
+
+
+def _offset(orig, st):
+    return len(orig) - len(st[1]) + st[0]
+
+
+def run_states(ctx):
+    """For every text over {a, space, line break} up to a bound: the states reachable from ParseSource(text) by
+    arbitrary sequences of the public mutators (consume, consume_current_line, consume_part_of_current_line,
+    consume_initial_space_on_current_line) against the two claims the operational model of opaque parsers
+    (contracts/C07_document.py, havoc_source_forward) rests on:
+      1. the state is a function of (offset, there is a current line);
+      2. every reachable state is reached by consume(n), optionally followed by consume_current_line() on the last
+         line."""
+    from exactly_lib.section_document.parse_source import ParseSource
+    import copy
+    max_len = 9 if ctx.tier == 'thorough' else 7
+    alphabet = ('a', ' ', '\n')
+    failures = []
+    cases = 0
+    for n in range(max_len + 1):
+        for chars in itertools.product(alphabet, repeat=n):
+            text = ''.join(chars)
+            start = ParseSource(text)
+            seen = {_state(start): start}
+            todo = [start]
+            while todo:
+                ps = todo.pop()
+                succ = []
+                if ps.has_current_line:
+                    for op in ('line', 'space'):
+                        c = copy.copy(ps)
+                        c.consume_current_line() if op == 'line' else c.consume_initial_space_on_current_line()
+                        succ.append(c)
+                    for k in range(len(ps.remaining_part_of_current_line) + 1):
+                        c = copy.copy(ps)
+                        c.consume_part_of_current_line(k)
+                        succ.append(c)
+                for k in range(len(ps.remaining_source) + 1):
+                    c = copy.copy(ps)
+                    c.consume(k)
+                    succ.append(c)
+                for c in succ:
+                    if _state(c) not in seen:
+                        seen[_state(c)] = c
+                        todo.append(c)
+            # the states of the operational model
+            model_states = set()
+            for k in range(len(text) + 1):
+                c = ParseSource(text)
+                if k > len(c.remaining_source):
+                    continue
+                c.consume(k)
+                model_states.add(_state(c))
+                if c.has_current_line and '\n' not in c.source_string:
+                    c.consume_current_line()
+                    model_states.add(_state(c))
+            cases += 1
+            by_key = {}
+            for st in seen:
+                key = (_offset(text, st), st[2] is not None)
+                if key in by_key and by_key[key] != st and len(failures) < 20:
+                    failures.append({'input': {'text': text}, 'expected': 'one state at %r' % (key,),
+                                     'actual': repr((by_key[key], st)), 'replay': None})
+                by_key[key] = st
+            missing = [st for st in seen if st not in model_states]
+            if missing and len(failures) < 20:
+                failures.append({'input': {'text': text}, 'expected': 'every reachable state is a state of the model',
+                                 'actual': repr(missing[:3]), 'replay': None})
+    ctx.bounded_result(
+        'exactly_lib.section_document.parse_source:ParseSource (states reachable through the public mutators)',
+        bound='texts of <= %d characters over {a, space, line break}; all sequences of mutator calls' % max_len,
+        cases=cases, exhaustive=True, failures=failures,
+        note='state = f(offset, has current line); reachable states = states of consume(n) [+ consume_current_line()]')
+
+
+# ------------------------------------------------------------------------------ parse_and_compute_source
+
+def run_parse_and_compute_source(ctx):
+    """The real parse_and_compute_source against the clauses of its contract (contracts/C07_document.py), for
+    every text over {a, space, line break} up to a bound, every start state with a current line, and every
+    instruction parser of the operational model (consume(n), optionally consume_current_line() on the last line)."""
+    from exactly_lib.section_document.parse_source import ParseSource
+    from exactly_lib.section_document.element_parsers import section_element_parsers as sep
+    from contracts import C07_document as D
+    max_len = 7 if ctx.tier == 'thorough' else 6
+    alphabet = ('a', ' ', '\n')
+    failures = []
+    cases = 0
+    the_instruction = object()
+    the_description = object()
+
+    class Parser(sep.InstructionParser):
+        def __init__(self, n, whole_line):
+            self.n, self.whole_line = n, whole_line
+
+        def parse(self, fs_location_info, source):
+            source.consume(self.n)
+            if self.whole_line:
+                source.consume_current_line()
+            return the_instruction
+
+    for n in range(max_len + 1):
+        for chars in itertools.product(alphabet, repeat=n):
+            text = ''.join(chars)
+            for k in range(len(text) + 1):
+                start = ParseSource(text)
+                if k > len(start.remaining_source):
+                    continue
+                start.consume(k)
+                if not start.has_current_line:
+                    continue
+                old = D.off_of(start, text)
+                for m in range(len(start.remaining_source) + 1):
+                    for whole_line in (False, True):
+                        source = ParseSource(text)
+                        source.consume(k)
+                        probe = ParseSource(text)
+                        probe.consume(k)
+                        probe.consume(m)
+                        if whole_line and not (probe.has_current_line and '\n' not in probe.source_string):
+                            continue
+                        cases += 1
+                        try:
+                            r = sep.parse_and_compute_source(Parser(m, whole_line), None, source, the_description)
+                            new = D.off_of(source, text)
+                            lines = list(r.source.lines)
+                            ok = D.RI(source, text) and new >= old \
+                                and r.source.first_line_number == D.line_number_at(text, old) \
+                                and '\n'.join(lines) == D.without_final_newline(text[old:new]) \
+                                and len(lines) >= 1 and all('\n' not in l for l in lines) \
+                                and r.instruction_info.instruction is the_instruction \
+                                and r.instruction_info.description is the_description
+                            actual = repr((r.source.first_line_number, lines, new))
+                        except Exception as e:
+                            ok, actual = False, 'raised %r' % (e,)
+                        if not ok and len(failures) < 20:
+                            failures.append({'input': {'text': text, 'start offset': k, 'consumed': m,
+                                                       'then the rest of the last line': whole_line},
+                                             'expected': 'the clauses of the contract of parse_and_compute_source',
+                                             'actual': actual, 'replay': None})
+    ctx.bounded_result(
+        'exactly_lib.section_document.element_parsers.section_element_parsers:parse_and_compute_source',
+        bound='texts of <= %d characters over {a, space, line break}; every start offset with a current line; every '
+              'amount consumed by the instruction parser' % max_len,
+        cases=cases, exhaustive=True, failures=failures,
+        note='the ensures clauses of the contract, evaluated natively')
+
+
+# ------------------------------------------------------------------------------ _consume_space_and_comment_lines
+
+def run_consume_space_and_comment_lines(ctx):
+    """The real InstructionWithOptionalDescriptionParser._consume_space_and_comment_lines against the clauses of its
+    contract, for every text over {a, space, #, line break} up to a bound and every start state with a current
+    line: on return the source is well formed, not moved back and has a current line; the only exception is
+    UnrecognizedSectionElementSourceError, with the source well formed and not moved back."""
+    from exactly_lib.section_document.parse_source import ParseSource
+    from exactly_lib.section_document.element_parsers import optional_description_and_instruction_parser as odi
+    from exactly_lib.section_document.section_element_parsing import UnrecognizedSectionElementSourceError
+    from contracts import C07_document as D
+    max_len = 7 if ctx.tier == 'thorough' else 6
+    alphabet = ('a', ' ', '#', '\n')
+    failures = []
+    cases = 0
+    for n in range(max_len + 1):
+        for chars in itertools.product(alphabet, repeat=n):
+            text = ''.join(chars)
+            for k in range(len(text) + 1):
+                source = ParseSource(text)
+                if k > len(source.remaining_source):
+                    continue
+                source.consume(k)
+                if not source.has_current_line:
+                    continue
+                old = D.off_of(source, text)
+                first_line = source.current_line
+                cases += 1
+                try:
+                    odi.InstructionWithOptionalDescriptionParser._consume_space_and_comment_lines(source, first_line)
+                    ok = D.RI(source, text) and D.off_of(source, text) >= old and D.has_line(source)
+                    actual = 'returned with %r' % (_state(source),)
+                except UnrecognizedSectionElementSourceError:
+                    ok = D.RI(source, text) and D.off_of(source, text) >= old
+                    actual = 'unrecognized element with %r' % (_state(source),)
+                except Exception as e:
+                    ok, actual = False, 'raised %r' % (e,)
+                if not ok and len(failures) < 20:
+                    failures.append({'input': {'text': text, 'start offset': k},
+                                     'expected': 'the clauses of the contract of _consume_space_and_comment_lines',
+                                     'actual': actual, 'replay': None})
+    ctx.bounded_result(
+        'exactly_lib.section_document.element_parsers.optional_description_and_instruction_parser:'
+        'InstructionWithOptionalDescriptionParser._consume_space_and_comment_lines',
+        bound='texts of <= %d characters over {a, space, #, line break}; every start offset with a current line'
+              % max_len,
+        cases=cases, exhaustive=True, failures=failures,
+        note='the ensures clauses of the contract, evaluated natively')
+
